@@ -174,7 +174,41 @@ def h32(*parts):
     return zlib.crc32(repr(parts).encode())
 
 
-def step(root, scratch, src_model, lab, dst_model, src_ans, seed=0, who=None, opts=None, light=True, want_n=True, n_cache=None):
+def _during_packed_refs_read(w, action):
+    """Run action() at the moment the reader w has consumed packed-refs inside get_packed_refs() and has not
+    returned yet (its in-flight answer may be the old one and is not judged).  If w never gets there (no
+    packed-refs file), the action runs afterwards.  Returns True if the action ran inside the read."""
+    import dulwich.refs as R_
+    fired, err = [], []
+
+    def wrap(orig):
+        def gen(f):
+            yield from orig(f)
+            if not fired:
+                fired.append(True)
+                try:
+                    action()
+                except BaseException as e:      # re-raised outside the reader
+                    err.append(e)
+        return gen
+    saved = (R_.read_packed_refs, R_.read_packed_refs_with_peeled)
+    R_.read_packed_refs, R_.read_packed_refs_with_peeled = wrap(saved[0]), wrap(saved[1])
+    try:
+        try:
+            w.refs.as_dict()
+        except Exception:
+            pass
+    finally:
+        R_.read_packed_refs, R_.read_packed_refs_with_peeled = saved
+    if err:
+        raise err[0]
+    if not fired:
+        action()
+        return False
+    return True
+
+
+def step(root, scratch, src_model, lab, dst_model, src_ans, seed=0, who=None, opts=None, light=True, want_n=True, n_cache=None, force=None):
     """Execute one transition on the repository at root (in place) and observe it.
 
     Returns a dict: who, opts, shape (list of str), viol (list of (site, clause, qkind, cause, detail)),
@@ -187,6 +221,11 @@ def step(root, scratch, src_model, lab, dst_model, src_ans, seed=0, who=None, op
         who = "wx"[hv & 1]
     if opts is None:
         opts = (hv >> 1) & 7
+    if force and act in force:             # a history family that needs a particular way of doing a step
+        who, opts = force[act]
+    # somebody else replaces packed-refs WHILE the long-lived reader is inside get_packed_refs (it has read the
+    # old file and not yet recorded which file its cache belongs to)
+    race = who == "x" and act in ("PackRefs", "DeleteRef")
     res = {"lab": lab, "who": who, "opts": opts, "shape": [], "viol": [], "ans": None, "ans_n": None}
     pre = None
     if act in PRIMARY_ACTS:
@@ -196,9 +235,12 @@ def step(root, scratch, src_model, lab, dst_model, src_ans, seed=0, who=None, op
         X.strip(pre)
     w = Repo(X.R(root))
     try:
-        X.warm(w, side)
+        X.warm(w, side, refs=not race)
         try:
-            X.apply(root, side, act, args, who, w, opts, src_model["tref"])
+            if race:
+                res["race"] = _during_packed_refs_read(w, lambda: X.apply(root, side, act, args, who, w, opts, src_model["tref"]))
+            else:
+                X.apply(root, side, act, args, who, w, opts, src_model["tref"])
         except X.GitRefused as e:         # not dulwich's behaviour: the history ends here, counted
             res["skip"] = str(e)[:300]
             return res
@@ -300,7 +342,7 @@ def step(root, scratch, src_model, lab, dst_model, src_ans, seed=0, who=None, op
             res["viol"].append((SITE[q], f"changed-by:{act}", q, "args=" + ",".join(map(str, args[:1])),
                                 f"query {q}[{key}]: before {va!r} after {vb!r} (both without acceleration data)"))
     for site, clause, detail in low:
-        if clause == "BitmapDecode":
+        if clause in ("BitmapDecode", "BitmapDead"):
             # latent: no query consults a bitmap read from disk today (BitmapReachability looks entries up by hex
             # id, read_bitmap_file keys them by binary id), so no answer changes; recorded, not a violation
             res.setdefault("info", []).append(f"{site}: {detail}")
